@@ -619,6 +619,18 @@ func runValidator(o *out, r *rng, thorough bool, pid string) {
 			if m.Vote.Value == nil {
 				m.Vote.Value = &gpbft.ECChain{}
 			}
+			if kind == "valid" && m.Justification == nil && (m.Vote.Phase == gpbft.QUALITY_PHASE || m.Vote.Phase == gpbft.PREPARE_PHASE) && r.chance(12) {
+				// a vote for a MALFORMED chain, genuinely signed over that chain's key: whoever sees only the key cannot tell;
+				// once the chain is known the message must be rejected (on either path)
+				if cm := e.cmts[m.Vote.Instance]; cm != nil {
+					if idx, ok := cm.PowerTable.Lookup[m.Sender]; ok {
+						p2 := m.Vote
+						p2.Value = e.invalidChain()
+						m = e.build(verifNet, idx, p2, nil, false)
+						kind = "value-invalid-signed"
+					}
+				}
+			}
 			if r.chance(70) {
 				// a progress state for which the message is relevant (same instance, its round or the next, not in DECIDE)
 				pr := m.Vote.Round
